@@ -6,6 +6,8 @@ import Tdms.Model.Path
 import Tdms.Model.Writer
 import Tdms.Spec.Parse
 import Tdms.Model.Defrag
+import Tdms.Model.Resource
+import Tdms.Model.Thermocouple
 
 /-!
 # Line protocol of the model executable
@@ -495,6 +497,96 @@ def cmdLayout (args : List String) : String :=
     | none => jObj [("ok", "false"), ("err", jStr "parse")]
   | _ => jObj [("ok", "false"), ("err", jStr "parse")]
 
+/-! ## resources (C20) -/
+
+open Tdms.Model.Resource in
+def parseSource (t : String) : Option Source :=
+  match t with
+  | "ds" => some .dataStream | "is" => some .indexStream | "bs" => some .badStream
+  | "dp0" => some (.dataPath false) | "dp1" => some (.dataPath true) | "ip" => some .indexPath
+  | _ => none
+
+open Tdms.Model.Resource in
+def jReader (r : Reader) (extra : List (String × String)) : String :=
+  let role (h : Handle) : String := jStr (match h.role with | .data => "data" | .index => "index")
+  jObj ([("libOpen", jArr ((libOpen r).map role)),
+         ("callerClosed", jBool (r.closedByLib.any (·.owner = .caller))),
+         ("closed", jBool (isClosed r))] ++ extra)
+
+open Tdms.Model.Resource in
+/-- `res <source> op…` with ops `M` (read_metadata), `C` (close), `R` (a read that needs the file) -/
+def cmdRes (args : List String) : String :=
+  match args with
+  | src :: ops =>
+    match parseSource src with
+    | none => jObj [("ok", "false"), ("err", jStr "parse")]
+    | some source =>
+      match init source with
+      | none => jObj [("ok", "true"), ("init", "null")]
+      | some r0 =>
+        let rec go (r : Reader) : List String → List String
+          | [] => []
+          | op :: rest =>
+            match op with
+            | "M" => let r' := readMetadata r; jReader r' [] :: go r' rest
+            | "C" => let r' := close r; jReader r' [] :: go r' rest
+            | "R" =>
+              let res := match readNeedsFile r with
+                | .data => "data" | .closedError => "closed" | .indexOnlyError => "indexOnly"
+              jReader r [("read", jStr res)] :: go r rest
+            | _ => ["null"]
+        jObj [("ok", "true"), ("init", jReader r0 []), ("steps", jArr (go r0 ops))]
+  | _ => jObj [("ok", "false"), ("err", jStr "parse")]
+
+/-- `wres <target>`: s0 s1 p0 p1 -/
+def cmdWRes (args : List String) : String :=
+  let t : Option Tdms.Model.Resource.WTarget := match args with
+    | ["s0"] => some (.stream false) | ["s1"] => some (.stream true)
+    | ["p0"] => some (.path false) | ["p1"] => some (.path true) | _ => none
+  match t with
+  | none => jObj [("ok", "false")]
+  | some t =>
+    let w := Tdms.Model.Resource.wOpen t
+    let c := Tdms.Model.Resource.wClose w
+    jObj [("ok", "true"), ("openInside", jNat (Tdms.Model.Resource.wLibOpen w).length),
+          ("openAfter", jNat (Tdms.Model.Resource.wLibOpen c).length),
+          ("callerClosed", jBool (c.closedByLib.any (·.owner = .caller)))]
+
+/-! ## thermocouples (C18) -/
+
+def parseRatTok (t : String) : Option Rat :=
+  match t.splitOn "/" with
+  | [n] => n.toInt?.map fun i => (i : Rat)
+  | [n, d] => do
+    let a ← n.toInt?
+    let b ← d.toNat?
+    if b = 0 then none else some ((a : Rat) / (b : Rat))
+  | _ => none
+
+/-- `tc <type code> <direction> x1 x2 …` : `ThermocoupleScaling.scale` polynomial part, exact rationals.
+    Output per point: [polynomial value, exp-term argument or null] as `num/den` strings. -/
+def cmdTc (args : List String) : String :=
+  match args with
+  | code :: dir :: xs =>
+    match code.toNat?, dir.toInt? with
+    | some code, some dir =>
+      match Tdms.Model.Thermocouple.lookupTable code with
+      | none => jObj [("ok", "false"), ("err", jStr "unknown-type")]
+      | some t =>
+        let showR (q : Rat) : String := jStr s!"{q.num}/{q.den}"
+        jObj [("ok", "true"), ("results", jArr (xs.map fun x =>
+          match parseRatTok x with
+          | none => "null"
+          | some q =>
+            match Tdms.Model.Thermocouple.scaleDirection t dir q with
+            | some p =>
+              jArr [showR p, match Tdms.Model.Thermocouple.scaleDirectionExp t dir q with
+                | some (c, e) => jArr [showR c, showR e]
+                | none => "null"]
+            | none => "null"))]
+    | _, _ => jObj [("ok", "false"), ("err", jStr "parse")]
+  | _ => jObj [("ok", "false"), ("err", jStr "parse")]
+
 def dispatchBase (cmd : String) (args : List String) : Option String :=
   match cmd with
   | "enc" => some (cmdEnc args)
@@ -512,6 +604,9 @@ def dispatchBase (cmd : String) (args : List String) : Option String :=
   | "infer" => some (cmdInfer args)
   | "defrag" => some (cmdDefrag args)
   | "layout" => some (cmdLayout args)
+  | "res" => some (cmdRes args)
+  | "wres" => some (cmdWRes args)
+  | "tc" => some (cmdTc args)
   | "ping" => some (jObj [("ok", "true")])
   | _ => none
 
